@@ -4,9 +4,9 @@ CONSTANTS
   Reps = {"v", "a"}
   Clients = {"c1", "c2"}
   NSeg = 0
-  Extra = 1
+  Extra = 0
   First = 5
   Scripts <- Scripts2x31
   ErrSets <- OneErr
-  StepGuard = FALSE
+  StepGuard = TRUE
 INVARIANTS InitFirst Consecutive StepLower StepUpper DeleteStops Delivered StuckOnlyAfterStop
